@@ -35,9 +35,9 @@ ASSUMPTIONS = [
     'd[list] and d[k1, k2] with an absent key may raise KeyError; nothing else is asserted about them',
     'dictable takes part in -, &, [non-empty list of columns] and relabel only (dictable + x is row concatenation, dictable[k1, k2] zips rows, '
     'dictable[[]] is the empty ROW selection)',
-    'd + other: for Dict and its subclasses `other` is exactly a dict, dictattr or Dict (tree_update recognises mappings by exact type and '
+    'd + other: for Dict and its subclasses `other` is exactly a dict, dictattr or Dict (so d + d is generated for dictattr, its subclass and Dict, not for a Dict subclass) (tree_update recognises mappings by exact type and '
     'raises "node item too short" for any other mapping class); for dictattr and its subclass `other` is any of the five classes',
-    'relabel: the resulting key list is duplicate-free (colliding renames have no defined result); the "full list of new keys" form is used only '
+    'relabel: the RESULTING key list is duplicate-free (colliding renames have no defined result) - new labels may well be other existing keys (swaps, rotations, permutation lists, prefix chains are generated); the "full list of new keys" form is used only '
     'on mappings with >= 2 keys (a one-element list is indistinguishable from a single prefix/suffix/ignored string in the *args idiom)',
     'Dict.__call__: every parameter of a callable value names a key of the mapping after the non-callable keywords were applied, or another '
     'callable keyword; no self-loops (d(a = lambda a: ...) is the documented update-from-old-value idiom); parameter and key names are never "key" or "self"',
@@ -471,6 +471,8 @@ def _mapping_case(draw):
         op['keys'] = selection(lo=1 if opname in ('gett', 'getl') else 0)
     elif opname == 'add':
         how = draw(st.sampled_from(['keys', 'keys', 'keys', 'keys', 'self', 'same_keys_reordered']))
+        if how == 'self' and cls == 'DictSub':
+            how = 'keys'            # d + d with d of a Dict SUBCLASS is outside the domain (see ASSUMPTIONS: exact-type rule of tree_update)
         if how == 'self':
             op['other_self'] = True
             op['other'] = []
@@ -1136,7 +1138,7 @@ SUBS = [
              'result is a ulist, duplicate-free, equal to the ordered-set model (first-occurrence order), both operands untouched. '
              'non-trivial = some list/ulist operand overlaps the current ulist partially and (operand or initial list) has repeated elements',
         floor=0.12, class_floors={'dup_in_operand': 0.2, 'overlap=partial': 0.2, 'elem_present': 0.1, 'elem_absent': 0.05,
-                                  'op&': 0.2, 'op-': 0.2, 'op+': 0.2, 'op|': 0.2, 'kind=ulist': 0.1, 'equal_across_types': 0.005,
+                                  'op&': 0.15, 'op-': 0.15, 'op+': 0.15, 'op|': 0.15, 'kind=ulist': 0.1, 'equal_across_types': 0.005,
                                   'fingerprint_operand': 0.05, 'fingerprint=self': 0.005, 'fingerprint=same_ends': 0.005, 'fingerprint=reversed': 0.005,
                                   'noop_result_equals_left_operand': 0.2, 'falsy_elem_operand': 0.05, 'result_empty': 0.05}),
     Sub('ulist_long', lambda tier: _ulist_long_case(), run_ulist_ops, quick=1500, thorough=6000,
@@ -1145,14 +1147,14 @@ SUBS = [
              'the other side short or long, 1-2 operations; same ordered-set oracle as ulist_ops. non-trivial as in ulist_ops',
         floor=0.1, class_floors={'raw_len>=64': 0.5, 'raw_len>=128': 0.25, 'ctor_raw_len>=64': 0.3, 'ctor_raw_len>=128': 0.12, 'union_raw_len>=64': 0.08,
                                  'union_raw_len>=128': 0.04, 'operand_len>=64': 0.2, 'operand_len>=128': 0.08, 'member_first_seen_at>=64': 0.05, 'member_first_seen_at>=128': 0.02, 'first_and_last_occurrence_order_differ': 0.5, 'fingerprint_operand': 0.03,
-                                 'op&': 0.15, 'op-': 0.15, 'op+': 0.15, 'op|': 0.15}),
-    Sub('mapping_ops', _mapping_strategy, run_mapping_ops, quick=7000, thorough=30000,
+                                 'op&': 0.1, 'op-': 0.1, 'op+': 0.1, 'op|': 0.1}),
+    Sub('mapping_ops', _mapping_strategy, run_mapping_ops, quick=6000, thorough=30000,
         rule='mapping of class dictattr / Dict / local subclass of each / dictable with 0-5 string keys and flat values; one operation: d - key, d - [keys], '
              'd & key, d & [keys], d[[keys]], d[k1, k2], d + other, relabel (keyword, dict, prefix, suffix, callable, full list, *names, rule + keywords; incl. swaps, rotations, permutation lists, permuting callables and prefix / suffix chains, i.e. new labels that are OTHER EXISTING keys), attribute get/set/del; '
              'selections present / absent / mixed / all keys in the same or another order; d + d and d + same-keys-reordered; oracle: plain dict model, type(result) is type(d), result is not d, exact keys (ordered for - and &), '
              'type-strict equal values, d and the right operand unchanged. non-trivial = >= 2 keys and a selection / update / relabel that hits some but not all keys',
-        floor=0.25, class_floors={'cls=dictable': 0.1, 'cls=AttrSub': 0.1, 'cls=DictSub': 0.1, 'sel=mixed': 0.08, 'sel=absent': 0.05, 'op=add': 0.08,
-                                  'add_overlap=some': 0.03, 'op=relabel': 0.08, 'relabel=list': 0.004, 'relabel=callable': 0.008, 'op=gett': 0.04,
+        floor=0.25, class_floors={'cls=dictable': 0.1, 'cls=AttrSub': 0.1, 'cls=DictSub': 0.1, 'sel=mixed': 0.06, 'sel=absent': 0.05, 'op=add': 0.06,
+                                  'add_overlap=some': 0.015, 'op=relabel': 0.08, 'relabel=list': 0.004, 'relabel=callable': 0.008, 'op=gett': 0.04,
                                   'op=attr': 0.02,
                                   'relabel_new_label_is_an_existing_key': 0.05, 'relabel_permutes_existing_keys': 0.03, 'relabel_swap': 0.02, 'relabel_cycle>=3': 0.005,
                                   'relabel_new_label_is_an_existing_key/prefix_suffix': 0.015, 'relabel_new_label_is_an_existing_key/callable': 0.004,
@@ -1167,7 +1169,7 @@ SUBS = [
         floor=0.3, class_floors={'nkeys>=30': 0.6, 'nkeys>=64': 0.15, 'sel_len>=30': 0.2, 'sel_len>=64': 0.05, 'sel=mixed': 0.12, 'cls=dictable': 0.1,
                                  'op=subl': 0.08, 'op=andl': 0.08, 'op=getl': 0.08, 'op=relabel': 0.08, 'op=add': 0.06,
                                  'relabel_permutes_existing_keys': 0.03}),
-    Sub('call_graph', lambda tier: _call_case(tier), run_call, quick=3000, thorough=3000,
+    Sub('call_graph', lambda tier: _call_case(tier), run_call, quick=2000, thorough=3000,
         rule='Dict / subclass with 0-4 base keys; keywords = 1-6 callable (derived) keys whose parameters name base keys, plain keywords or other derived keys '
              '(random dag over a hidden rank order; 1 in 4 gets 1-2 back edges, no self-loops; 1 in 3 derived names RE-DEFINES a key of d whose old value is an int, 0 or None; 1 callable in 8 returns None / 0; 1 case in 8 has 70 more base keys; names are prefixes / concatenations of one another) plus 0-2 plain keywords; '
              'called in the drawn order, 2 more drawn orders and the reverse (thorough: about 1 case in 5 is called in ALL orders of its <= 6 keywords, <= 720); oracle: recursive evaluator on the '
